@@ -614,6 +614,7 @@ namespace awkward {
     else if (dynamic_cast<SliceAt*>(head.get())  ||
              dynamic_cast<SliceRange*>(head.get())  ||
              dynamic_cast<SliceArray64*>(head.get())  ||
+             dynamic_cast<SliceMissing64*>(head.get())  ||
              dynamic_cast<SliceJagged64*>(head.get())) {
       UnmaskedArray out2(identities_,
                          parameters_,
@@ -635,10 +636,6 @@ namespace awkward {
     else if (SliceFields* fields =
              dynamic_cast<SliceFields*>(head.get())) {
       return Content::getitem_next(*fields, tail, advanced);
-    }
-    else if (SliceMissing64* missing =
-             dynamic_cast<SliceMissing64*>(head.get())) {
-      return Content::getitem_next(*missing, tail, advanced);
     }
     else if (SliceVarNewAxis* varnewaxis =
              dynamic_cast<SliceVarNewAxis*>(head.get())) {
